@@ -1,0 +1,24 @@
+//go:build verif
+
+// Contracts for the deductive verifier in /verif (comment-only; compiled only
+// with -tags verif).  Syntax: see /verif/DESIGN.md.
+package creds
+
+// C17.  wbytes(buf) is the ghost byte sequence accumulated in a bytes.Buffer.
+// Loop 1 ranges over the map, loop 2 over the values of one key.  The clauses
+// say: before the loops the buffer holds exactly the two capability lines;
+// nothing is written between the head of an outer iteration and the inner
+// loop, nor after the inner loop; and every completed inner iteration appended
+// exactly "k=item\n" for an item that is free of LF, NUL and (under
+// protection) CR.  Hence the buffer that is returned is the capability lines
+// followed by one line per supplied pair, and an unsafe value never completes
+// an iteration (it returns an error and no buffer).
+//@ func (Creds).buffer
+//@   props C17
+//@   ensures result1 != nil ==> result0 == nil
+//@   ensures result1 == nil ==> result0 != nil
+//@   at loop 1 entry assert wbytes(buf) == scat("capability[]=authtype\n", "capability[]=state\n")
+//@   at loop 2 entry assert wbytes(buf) == iter1(wbytes(buf))
+//@   loop 1 iter wbytes(buf) == iter2(wbytes(buf))
+//@   loop 2 iter !str_contains(item, "\n") && !str_contains(item, "\x00") && (protectProtocol ==> !str_contains(item, "\r"))
+//@   loop 2 iter wbytes(buf) == scat(scat(scat(scat(iter(wbytes(buf)), k), "="), item), "\n")
